@@ -1,34 +1,53 @@
 /-
   C14 — collective keys are keys of the ideal secret, whatever the share order.
 
-  All theorems are about the definitions of `Lattigo/Model/MPShare.lean` (the ones the driver executes
-  on `RPoly`), for an arbitrary commutative ring `α` (resp. commutative additive semigroup for the
-  order-independence statements), any number of parties and any aggregation tree.
+  All theorems are about the definitions of `Lattigo/Model/MPShare.lean` (the ones the driver executes on `RPoly`).
+  Parties are the leaves of the aggregation tree `t`; `t.eval (· + ·) s` is the ideal secret `Σ s_i` (the same for
+  any tree, by `agg_perm`).
 
-  Shape of the statements: parties are indexed by the leaves of the aggregation tree `t`;
-  `t.eval (· + ·) s` is the ideal secret `Σ s_i` (for ANY tree, by `agg_perm`, it is the same sum).
+  PROVED FOR ALL INPUTS
+    * generic carrier (every commutative ring, resp. additive commutative semigroup): `agg_perm`, `agg_fold_perm`,
+      `agg_tree_eq_fold`, `evk_agg_perm`, `gal_agg_perm`, `rkg_agg_perm`; `cpk_phase`, `cpk_eq_single`;
+      `evk_row`, `evk_collective_eq_single`, `evk_key_assembled` (any decomposition shape);
+      `gal_collective_eq_single`; `rkg_round_one_collective`, `rkg_round_two_collective`, `rkg_row`
+      (exact error `s·E0 + u·E1 + E2`); `mismatch_rejected_*` (Galois element, LevelQ, LevelP, decomposition,
+      CRP shape, key levels), `genEvaluationKey_decomposition_rejected`.
+    * on `RPoly` with well-formed inputs (`Props/C14Ring.lean`, through the commutative ring `WFPoly qs n`):
+      `agg_perm_rpoly`, `cpk_*_rpoly`, `evk_*_rpoly`, `gal_collective_eq_single_rpoly`, `rkg_row_rpoly`, and here
+      `rkg_round_one_collective_rpoly`, `rkg_round_two_collective_rpoly` (§8).
+    * noise SIZE over `Z[X]/(X^N+1)` (`Props/C14Noise.lean`): `cpk_noise_bound`, `cpk_enc_noise_bound(_P)`,
+      `collective_keyswitch_noise_bound`, `collective_le_n_times_single` (public, evaluation and Galois keys:
+      ≤ N × the single-party bound), `rkg_noise_bound`, `collective_relin_noise_bound`.
+      The clause "noise below N times the single-party bound" is FALSE in the worst case for the
+      relinearisation key: `rkg_noise_quadratic_witness` (the ℓ∞ bound `n·B·(n·h + n·h_u + 1)` is attained up to
+      constants; it is quadratic in the number of parties — linear only in standard deviations).
+    * the CRS at the byte level (§7): `crp_reduced`, `crp_is_stream_words`, `crs_determinism` — the reference
+      polynomials are the C17 uniform-sampler model on fresh buffers applied to the bytes of the keyed generator
+      (C17 `uniform_range`, `uniform_consumes`, `prng_reads_are_one_stream`, `prng_key_replays`).
+    * serialization (§9): `agg_serialization_independent` (C08 `roundtrip` on the share formats).
+  TIED ONLY (model = implementation on the explored inputs): the RNS layout of the gadget constants (`gadgetW`),
+  the Montgomery/NTT conventions undone by `Canon`, the conjugate-invariant unfolding, the twin replay of the
+  samplers (errors, secrets are INPUTS of the model).
+  PROBED ONLY: functional use of the final keys by the single-party Encryptor / Evaluator
+  (`collective_key_works`, against bounds that dominate the C14Noise theorems), `key_survives_share_reuse`,
+  `refused_call_keeps_receiver`, `agg_order_indep` on the real objects.
+  NOT COVERED: that the gadget constants `w_ij` are the ones the single-party key switching expects (C04);
+  distribution of the CRS beyond "a function of the XOF bytes" (the XOF is an arbitrary function in C17).
 
-  What is NOT proved here (gap between these theorems and the Go code): that `RPoly` with the
-  operations of `Model/RPoly.lean` is the commutative ring `Z_Q[X]/(X^N+1)` (property C01) — the tie
-  of the harness checks the model against the real shares / keys on `RPoly`; and the noise *bound*
-  (a norm statement) — the theorems give the exact error term (`Σ e_i`, resp.
-  `s·E0 + u·E1 + E2`), its size is measured by the probe `collective_key_works` against the explicit
-  worst-case bound derived in `harness/c14_probe.go`.
-
-  Defects found through this property and repaired in /repo (fixes/C14-*.diff); the model follows the
-  repaired code, the former model witnesses became positive statements:
-    * GenEvaluationKey/GenGaloisKey copied `len(m[0])` digits per row   → `evk_key_assembled` (any shape),
-                                                                          `genEvaluationKey_ragged_ok`
+  Defects found through this property and repaired in /repo (fixes/C14-*.diff); the model follows the repaired code:
+    * GenEvaluationKey/GenGaloisKey copied `len(m[0])` digits per row   → `evk_key_assembled`, `genEvaluationKey_ragged_ok`
     * AggregateShares did not compare the decompositions               → `mismatch_rejected_decomposition`
-    * GaloisKeyGenProtocol.GenShare panicked without auxiliary modulus  → `gal_collective_eq_single` has no
-                                                                          hypothesis on `LevelP`, `gal_noP_ok`
+    * GaloisKeyGenProtocol.GenShare panicked without auxiliary modulus  → `gal_noP_ok`
     * GenShare's LevelP test compared the share with itself             → `mismatch_rejected_sk_levelP`
+    * Galois GenShare/AggregateShares tagged the receiver before a refusal (C14-5, probe refused_call_keeps_receiver)
   Recorded, not repaired (needs an API change): `RelinearizationKeyGenProtocol.AggregateShares` has no
   validation and no error result (probe `mismatch_rejected kind=rkg_levelQ*`, key C14-rkg-agg-unchecked).
 -/
 import Lattigo.Proofs.MPKeys
 import Lattigo.Props.C14Ring
 import Lattigo.Props.C14Noise
+import Lattigo.Props.C17
+import Lattigo.Props.C08
 
 namespace Lattigo.Props.C14
 open Lattigo.MP
@@ -354,21 +373,286 @@ example : (⟨1, 0, 0, []⟩ : GShare Int).levelP > min (0 : Int) (-1) := by dec
 
 end ring
 
-/-! ## 7. CRS determinism -/
+/-! ## 7. The common reference string, at the byte level (refinement of the C17 sampler / PRNG models) -/
 
-/-- **crs_determinism.** The reference polynomials are a function of the CRS bytes, the CRS position
-    and the sequence of requests only (`sampleCRP` takes no party-private sampler state: every call
-    starts from fresh buffers); hence two parties holding the same CRS and performing the same
-    sequence of calls obtain identical polynomials and stay synchronised.  (The content of this
-    statement is in the definition of `runCRS`, tied bit-exactly to the Go samplers by the `crs` lines.) -/
-theorem crs_determinism (reqs : List CRPRequest) (st₁ st₂ : CRSState)
-    (hb : st₁.bytes = st₂.bytes) (hp : st₁.pos = st₂.pos) :
-    (runCRS reqs st₁).map (·.1) = (runCRS reqs st₂).map (·.1) ∧
-    (runCRS reqs st₁).map (·.2.pos) = (runCRS reqs st₂).map (·.2.pos) := by
-  cases st₁; cases st₂; simp_all
+section crs
+open Lattigo.Sampler
 
-example : (runCRS [⟨[97], [], 2, 1⟩] ⟨Array.replicate 1024 7, 0⟩).map (·.1) = some [[[[7, 7]]]] := by
-  decide +kernel
+/-- what one `ringqp.UniformSampler.ReadNew` does: the Q sampler, then (if there is a P) the P sampler, on the same
+    stream — the two `uniformRead` calls of the C17 model -/
+theorem qpRead_ok (fuel : Nat) (qs : List Nat) (qsP : Option (List Nat)) (pQ pP rQ rP : Poly) (s s' : Bytes)
+    (bs bs' : QPBufs) (h : qpRead fuel (some qs) qsP pQ pP s bs = .ok (rQ, rP, s', bs')) :
+    ∃ s1 bQ, uniformRead fuel .read qs pQ s bs.bQ = .ok (rQ, s1, bQ) ∧
+      (∀ ps, qsP = some ps → ∃ bP, uniformRead fuel .read ps pP s1 bs.bP = .ok (rP, s', bP)) ∧
+      (qsP = none → rP = pP ∧ s' = s1) := by
+  unfold qpRead at h
+  cases hq : uniformRead fuel .read qs pQ s bs.bQ with
+  | ok v =>
+    obtain ⟨r1, s1, b1⟩ := v
+    simp only [hq, bind] at h
+    cases qsP with
+    | none =>
+      simp only [pure, Sampler.Res.ok.injEq, Prod.mk.injEq] at h
+      obtain ⟨rfl, rfl, rfl, _⟩ := h
+      exact ⟨_, _, rfl, fun _ h => (by cases h), fun _ => ⟨rfl, rfl⟩⟩
+    | some ps =>
+      cases hp : uniformRead fuel .read ps pP s1 bs.bP with
+      | ok w =>
+        obtain ⟨r2, s2, b2⟩ := w
+        simp only [hp, pure, Sampler.Res.ok.injEq, Prod.mk.injEq] at h
+        obtain ⟨rfl, rfl, rfl, _⟩ := h
+        exact ⟨_, _, rfl, fun ps' h => (by cases h; exact ⟨_, hp⟩), fun h => (by cases h)⟩
+      | exhausted => simp [hp] at h
+      | panic => simp [hp] at h
+  | exhausted => simp [hq, bind] at h
+  | panic => simp [hq, bind] at h
+
+/-- rows `i < qs.length` of `r` are reduced modulo `qs[i]` -/
+def RowsReduced (qs : List Nat) (r : Poly) : Prop :=
+  ∀ i row, i < qs.length → r[i]? = some row → ∀ c ∈ row, c < qs.getD i 0
+
+/-- **crp_reduced.**  Every reference polynomial returned by `SampleCRP` (any CRS bytes, any request) is the
+    concatenation of a Q part and a P part whose rows are reduced modulo the respective primes
+    (C17 `uniform_range` applied to the two samplers). -/
+theorem crp_reduced (fuel : Nat) (qs ps : List Nat) (n : Nat) :
+    ∀ (count : Nat) (s : Bytes) (bs : QPBufs) (polys : List Poly) (s' : Bytes),
+      crpReadN fuel qs ps n count s bs = .ok (polys, s') →
+      ∀ pol ∈ polys, ∃ rQ rP, pol = rQ ++ rP ∧ RowsReduced qs rQ ∧ (ps.isEmpty = false → RowsReduced ps rP)
+  | 0, s, bs, polys, s', h => by
+      simp only [crpReadN, Sampler.Res.ok.injEq, Prod.mk.injEq] at h
+      obtain ⟨rfl, _⟩ := h
+      intro pol hp; simp at hp
+  | k + 1, s, bs, polys, s', h => by
+      unfold crpReadN at h
+      split at h
+      · rename_i rQ rP s1 bs1 hq
+        split at h
+        · rename_i rest s2 hrest
+          simp only [Sampler.Res.ok.injEq, Prod.mk.injEq] at h
+          obtain ⟨rfl, rfl⟩ := h
+          intro pol hp
+          rcases List.mem_cons.mp hp with rfl | hp
+          · obtain ⟨sm, bQ, hQ, hP, _⟩ := qpRead_ok _ _ _ _ _ _ _ _ _ _ _ hq
+            refine ⟨rQ, rP, rfl, Lattigo.C17.uniform_range _ _ _ _ _ _ _ _ hQ, ?_⟩
+            intro hne
+            have hsel : (if ps.isEmpty = true then (none : Option (List Nat)) else some ps) = some ps := by
+              simp [hne]
+            obtain ⟨bP, hP⟩ := hP ps hsel
+            exact Lattigo.C17.uniform_range _ _ _ _ _ _ _ _ hP
+          · exact crp_reduced fuel qs ps n k _ _ _ _ hrest pol hp
+        · simp at h
+        · simp at h
+      · simp at h
+      · simp at h
+
+/-- **crp_is_stream_words.**  The Q part of the first reference polynomial of a `SampleCRP` is the unbuffered
+    specification `specRows`: the big-endian 64-bit words of the CRS taken one after the other, masked, the words
+    `≥ q_i` dropped (C17 `uniform_consumes` from fresh buffers) — no byte of the CRS is used twice or skipped. -/
+theorem crp_is_stream_words (fuel : Nat) (qs ps : List Nat) (n k : Nat) (s s' : Bytes) (polys : List Poly)
+    (h : crpReadN fuel qs ps n (k + 1) s ⟨Buf.new, Buf.new⟩ = .ok (polys, s')) :
+    ∃ rQ rP rest s1 bQ, polys = (rQ ++ rP) :: rest ∧
+      specRows .read qs (zeroPoly qs.length n) (wordsBE s) = some (rQ, wordsBE (pendingIn s1 bQ)) := by
+  unfold crpReadN at h
+  split at h
+  · rename_i rQ rP s1 bs1 hq
+    split at h
+    · rename_i rest s2 hrest
+      simp only [Sampler.Res.ok.injEq, Prod.mk.injEq] at h
+      obtain ⟨rfl, rfl⟩ := h
+      obtain ⟨sm, bQ, hQ, _⟩ := qpRead_ok _ _ _ _ _ _ _ _ _ _ _ hq
+      have := (Lattigo.C17.uniform_consumes _ _ _ _ _ _ _ _ _ BufInv.new hQ).2.1
+      refine ⟨rQ, rP, rest, sm, bQ, rfl, ?_⟩
+      simpa [pendingAtCall, Buf.new] using this
+    · simp at h
+    · simp at h
+  · simp at h
+  · simp at h
+
+/-- a party's copy of the CRS: the next `len` bytes of its keyed generator -/
+def crsBytes (xof : XOF) (p : PRNG) (len : Nat) : Bytes := (p.read xof len).1
+
+/-- **crs_determinism (byte level).**  Parties whose generators have the same key and stand at the same position
+    hold the same CRS bytes (the stream is a function of the key: C17 `prng_reads_are_one_stream`), hence — every
+    `SampleCRP` starting from fresh sampler buffers — the same sequence of calls gives them identical reference
+    polynomials and leaves them at identical positions; a generator rebuilt from `Key()` and a `Reset()` one agree
+    too (C17 `prng_key_replays`). -/
+theorem crs_determinism (xof : XOF) (p₁ p₂ : PRNG) (len : Nat) (reqs : List CRPRequest)
+    (hk : p₁.getKey = p₂.getKey) (hp : p₁.pos = p₂.pos) :
+    crsBytes xof p₁ len = crsBytes xof p₂ len ∧
+    runCRS reqs (crsBytes xof p₁ len) = runCRS reqs (crsBytes xof p₂ len) ∧
+    runCRS reqs (crsBytes xof (PRNG.new p₁.getKey) len) = runCRS reqs (crsBytes xof p₁.reset len) := by
+  have h : crsBytes xof p₁ len = crsBytes xof p₂ len := by
+    cases p₁; cases p₂; simp only [PRNG.getKey] at hk; simp only at hp; subst hk; subst hp; rfl
+  refine ⟨h, by rw [h], ?_⟩
+  have := (Lattigo.C17.prng_key_replays xof p₁ len []).2.1
+  have h2 := (Lattigo.C17.prng_reads_are_one_stream xof p₁ len 0 []).2.2.1
+  unfold crsBytes
+  rw [this, h2]
+
+/-- two parties holding the same 1024 CRS bytes: two coefficients modulo 97 -/
+example : runCRS [⟨[97], [], 2, 1⟩] (List.replicate 1024 7) = .ok ([[[[7, 7]]]], []) := by decide +kernel
+
+example : crsBytes (fun k i => i + k.getD 0 0) (PRNG.new [7, 9]) 3 = [7, 8, 9] := by decide
+
+end crs
+
+/-! ## 8. Relinearisation rounds on the carrier the driver executes (`RPoly`) -/
+
+section rkgRPoly
+open Lattigo Lattigo.RPolyRing Lattigo.Transport Lattigo.Props.C14Ring
+variable {qs : List ℕ} {n : ℕ} [Good qs n]
+
+/-- component-wise sum of error pairs `(e0, e1)` (only `+` is needed) -/
+def pairAddR (x y : RPoly × RPoly) : RPoly × RPoly := (x.1 + y.1, x.2 + y.2)
+
+omit [Good qs n] in
+theorem exists_lift_fun_pairMat (e : Nat → Mat (RPoly × RPoly))
+    (h : ∀ i, ∀ r ∈ e i, ∀ p ∈ r, WFq qs n p.1 ∧ WFq qs n p.2) :
+    ∃ e' : Nat → Mat (WFPoly qs n × WFPoly qs n), (fun i => (e' i).map (List.map (Prod.map val val))) = e :=
+  ⟨fun i => (exists_lift_pairMat (e i) (h i)).choose, funext fun i => (exists_lift_pairMat (e i) (h i)).choose_spec⟩
+
+theorem zipPair_push (x y : Mat (WFPoly qs n × WFPoly qs n)) :
+    (List.zipWith (List.zipWith pairAdd) x y).map (List.map (Prod.map val val)) =
+      List.zipWith (List.zipWith pairAddR) (x.map (List.map (Prod.map val val))) (y.map (List.map (Prod.map val val))) := by
+  induction x generalizing y with
+  | nil => simp
+  | cons a x ih =>
+    cases y with
+    | nil => simp
+    | cons b y =>
+      simp only [List.zipWith_cons_cons, List.map_cons, ih, List.cons.injEq, and_true]
+      induction a generalizing b with
+      | nil => simp
+      | cons p a iha =>
+        cases b with
+        | nil => simp
+        | cons q b => simp [iha, pairAdd, pairAddR, Prod.map, val_add]
+
+theorem rkgVal1_push (s u : WFPoly qs n) (crp w : Mat (WFPoly qs n)) (e : Mat (WFPoly qs n × WFPoly qs n)) :
+    (rkgVal1 s u crp w e).map (List.map (List.map val)) =
+      matMap3 (fun a w (e : RPoly × RPoly) => rkgRoundOneRow a (val s) (val u) e.1 e.2 w)
+        (crp.map (List.map val)) (w.map (List.map val)) (e.map (List.map (Prod.map val val))) := by
+  unfold rkgVal1
+  exact matMap3_push _ _ (List.map val) val val (Prod.map val val)
+    (fun a w e => by simp only [rkgRoundOneRow_push val_hom, Prod.map]) crp w e
+
+/-- **rkg_round_one_collective_rpoly.**  On `RPoly` values with well-formed inputs: the aggregate (any tree) of the
+    parties' round-one shares is the round-one share of `(Σ s_i, Σ u_i, Σ e0_i, Σ e1_i)`. -/
+theorem rkg_round_one_collective_rpoly (crp w : Mat RPoly) (out : GShare RPoly) (s u : Nat → RPoly)
+    (e : Nat → Mat (RPoly × RPoly)) (t : AggTree)
+    (hs : ∀ i, WFq qs n (s i)) (hu : ∀ i, WFq qs n (u i))
+    (he : ∀ i, ∀ r ∈ e i, ∀ p ∈ r, WFq qs n p.1 ∧ WFq qs n p.2)
+    (hcrp : ∀ r ∈ crp, ∀ p ∈ r, WFq qs n p) (hw : ∀ r ∈ w, ∀ p ∈ r, WFq qs n p) :
+    (t.eval rkgAggregate fun i => rkgRoundOne (s i) (u i) crp w (e i) out).val =
+      (rkgRoundOne (t.eval (· + ·) s) (t.eval (· + ·) u) crp w
+        (t.eval (List.zipWith (List.zipWith pairAddR)) e) out).val := by
+  rw [rkg_eval_val]
+  obtain ⟨s, rfl⟩ := exists_lift_fun s hs
+  obtain ⟨u, rfl⟩ := exists_lift_fun u hu
+  obtain ⟨e, rfl⟩ := exists_lift_fun_pairMat e he
+  obtain ⟨crp, rfl⟩ := exists_lift_mat crp hcrp
+  obtain ⟨w, rfl⟩ := exists_lift_mat w hw
+  have h := congrArg (List.map (List.map (List.map val))) (rkg1_tree_val t s u e crp w)
+  rw [evalCubeAdd_push val_hom, rkgVal1_push, evalAdd_push val_hom, evalAdd_push val_hom,
+    eval_push (List.map (List.map (Prod.map val val))) _ _ zipPair_push] at h
+  simp only [rkgVal1_push] at h
+  exact h
+
+theorem zipEntry_push (s u : WFPoly qs n) (r1 : Mat (List (WFPoly qs n))) (e2 : Mat (WFPoly qs n)) :
+    (rkgVal2 s u r1 e2).map (List.map (List.map val)) =
+      List.zipWith (List.zipWith (rkgRoundTwoEntry (val s) (val u))) (r1.map (List.map (List.map val)))
+        (e2.map (List.map val)) := by
+  unfold rkgVal2
+  induction r1 generalizing e2 with
+  | nil => simp
+  | cons a r1 ih =>
+    cases e2 with
+    | nil => simp
+    | cons b e2 =>
+      simp only [List.zipWith_cons_cons, List.map_cons, ih, List.cons.injEq, and_true]
+      induction a generalizing b with
+      | nil => simp
+      | cons p a iha =>
+        cases b with
+        | nil => simp
+        | cons q b => simp [iha, rkgRoundTwoEntry_push val_hom]
+
+/-- **rkg_round_two_collective_rpoly.**  Same for round two, from one (well-formed) aggregated round-one share. -/
+theorem rkg_round_two_collective_rpoly (round1 out : GShare RPoly) (s u : Nat → RPoly) (e2 : Nat → Mat RPoly)
+    (t : AggTree) (hs : ∀ i, WFq qs n (s i)) (hu : ∀ i, WFq qs n (u i))
+    (he : ∀ i, ∀ r ∈ e2 i, ∀ p ∈ r, WFq qs n p)
+    (hr1 : ∀ r ∈ round1.val, ∀ l ∈ r, ∀ p ∈ l, WFq qs n p) :
+    (t.eval rkgAggregate fun i => rkgRoundTwo (s i) (u i) round1 (e2 i) out).val =
+      (rkgRoundTwo (t.eval (· + ·) s) (t.eval (· + ·) u) round1 (t.eval matAdd e2) out).val := by
+  rw [rkg_eval_val]
+  obtain ⟨s, rfl⟩ := exists_lift_fun s hs
+  obtain ⟨u, rfl⟩ := exists_lift_fun u hu
+  obtain ⟨e2, rfl⟩ := exists_lift_fun_mat e2 he
+  obtain ⟨r1, hr1'⟩ := exists_lift_cube round1.val hr1
+  have h := congrArg (List.map (List.map (List.map val))) (rkg2_tree_val t s u e2 r1)
+  rw [evalCubeAdd_push val_hom, zipEntry_push, evalAdd_push val_hom, evalAdd_push val_hom,
+    evalMatAdd_push val_hom] at h
+  simp only [zipEntry_push, hr1'] at h
+  exact h
+
+/-- instances obtained FROM THE THEOREMS (moduli 97, 193, degree 8, three parties), all hypotheses discharged -/
+example :
+    (t8.eval rkgAggregate fun i => rkgRoundOne (s8 i) (e8 i) [[a8]] [[a8]] [[(e8 i, s8 i)]] ⟨1, -1, 0, []⟩).val =
+      (rkgRoundOne (t8.eval (· + ·) s8) (t8.eval (· + ·) e8) [[a8]] [[a8]]
+        (t8.eval (List.zipWith (List.zipWith pairAddR)) fun i => [[(e8 i, s8 i)]]) ⟨1, -1, 0, []⟩).val :=
+  rkg_round_one_collective_rpoly (qs := [97, 193]) (n := 8) _ _ _ s8 e8 _ t8
+    (fun _ => ofInts_wf _ rfl) (fun _ => ofInts_wf _ rfl)
+    (fun i r hr p hp => by
+      simp only [List.mem_cons, List.not_mem_nil, or_false] at hr; subst hr
+      simp only [List.mem_cons, List.not_mem_nil, or_false] at hp; subst hp
+      exact ⟨ofInts_wf _ rfl, ofInts_wf _ rfl⟩)
+    (by decide) (by decide)
+
+example :
+    (t8.eval rkgAggregate fun i => rkgRoundTwo (s8 i) (e8 i) ⟨1, -1, 0, [[[a8, a8]]]⟩ [[e8 i]] ⟨1, -1, 0, []⟩).val =
+      (rkgRoundTwo (t8.eval (· + ·) s8) (t8.eval (· + ·) e8) ⟨1, -1, 0, [[[a8, a8]]]⟩
+        (t8.eval matAdd fun i => [[e8 i]]) ⟨1, -1, 0, []⟩).val :=
+  rkg_round_two_collective_rpoly (qs := [97, 193]) (n := 8) _ _ s8 e8 _ t8
+    (fun _ => ofInts_wf _ rfl) (fun _ => ofInts_wf _ rfl)
+    (fun i r hr p hp => by
+      simp only [List.mem_cons, List.not_mem_nil, or_false] at hr; subst hr
+      simp only [List.mem_cons, List.not_mem_nil, or_false] at hp; subst hp
+      exact ofInts_wf _ rfl)
+    (by decide)
+
+end rkgRPoly
+
+/-! ## 9. Aggregation does not depend on whether the shares travelled through serialization -/
+
+section serialization
+open Lattigo.Codec
+
+/-- what the receiver of a serialized share holds: the value decoded from its encoding -/
+def received (f : Fmt) (v : Val) : Val := ((dec f (enc f v)).map Prod.fst).getD .unit
+
+theorem received_eq (f : Fmt) (v : Val) (h : WT f v) : received f v = v := by
+  have := Lattigo.C08.roundtrip f v [] h
+  rw [List.append_nil] at this
+  simp [received, this]
+
+/-- **agg_serialization_independent.**  For every wire format `f` of the C08 codec model (`publicKeyGenShare`,
+    `evalKeyGenShare`, `relinKeyGenShare`, `galoisKeyGenShare`, …), every aggregation operation `op` and every
+    aggregation tree: aggregating the shares as RECEIVED (`UnmarshalBinary ∘ MarshalBinary`) gives the same result as
+    aggregating the shares themselves, for all well-typed shares (C08 `roundtrip`).  With `agg_perm` the aggregate
+    is the same whatever the order, grouping and transport of the shares. -/
+theorem agg_serialization_independent {β : Type} (f : Fmt) (embed : Val → β) (op : β → β → β) (sh : Nat → Val)
+    (t : AggTree) (h : ∀ i, WT f (sh i)) :
+    t.eval op (fun i => embed (received f (sh i))) = t.eval op (fun i => embed (sh i)) := by
+  have : (fun i => embed (received f (sh i))) = fun i => embed (sh i) := funext fun i => by rw [received_eq f _ (h i)]
+  rw [this]
+
+/-- a public-key share (`ringqp.Poly`: Q part with two rows of two words, P part with one row) survives the wire -/
+example : received publicKeyGenShare
+    (.pair (.list [.list [.num 5, .num 7], .list [.num 1, .num 2]]) (.list [.list [.num 3, .num 4]]))
+    = .pair (.list [.list [.num 5, .num 7], .list [.num 1, .num 2]]) (.list [.list [.num 3, .num 4]]) :=
+  received_eq _ _ (wtb_sound _ _ (by decide))
+
+end serialization
 
 end Lattigo.Props.C14
 
@@ -400,4 +684,9 @@ open Lattigo.Props.C14 in
 #print axioms Lattigo.Props.C14.mismatch_rejected_sk_level
 #print axioms Lattigo.Props.C14.mismatch_rejected_decomposition
 #print axioms Lattigo.Props.C14.mismatch_rejected_sk_levelP
+#print axioms Lattigo.Props.C14.crp_reduced
+#print axioms Lattigo.Props.C14.crp_is_stream_words
 #print axioms Lattigo.Props.C14.crs_determinism
+#print axioms Lattigo.Props.C14.rkg_round_one_collective_rpoly
+#print axioms Lattigo.Props.C14.rkg_round_two_collective_rpoly
+#print axioms Lattigo.Props.C14.agg_serialization_independent
